@@ -61,13 +61,17 @@ func genC15NP(t *rapid.T, l string) NetPol {
 	cfg := &GenCfg{NoNamedRisk: true}
 	p := genNetPol(t, l, rapid.SampledFrom(c15Ns).Draw(t, l+"ns"), cfg)
 	p.Name = rapid.SampledFrom(c15NPNames).Draw(t, l+"name")
+	if rapid.IntRange(0, 2).Draw(t, l+"namedhttp") == 0 {
+		// a rule that depends on what the destination pod calls "http" (the pods of this model declare 80 or 81)
+		p.Ingress = append(p.Ingress, Rule{Ports: []PPort{{PortNam: "http"}}})
+	}
 	return p
 }
 
 func genC15(t *rapid.T) *C15Case {
 	c := &C15Case{}
 	n := rapid.IntRange(1, 40).Draw(t, "nsteps")
-	kinds := []string{"insNs", "insNs", "delNs", "insPod", "insPod", "insPod", "insPod", "delPod", "insNP", "insNP", "insNP", "delNP", "insANP", "insANP", "insANP", "insANP", "delANP", "delANP", "insBANP", "delBANP", "setRes", "query"}
+	kinds := []string{"insNs", "insNs", "delNs", "insPod", "insPod", "insPod", "insPod", "delPod", "insNP", "insNP", "insNP", "delNP", "insANP", "insANP", "insANP", "insANP", "delANP", "delANP", "insBANP", "delBANP", "setRes", "query", "reinsPod", "reinsPod"}
 	cfg := &GenCfg{NoNamedRisk: true}
 	for s := 0; s < n; s++ {
 		l := fmt.Sprintf("s%d", s)
@@ -81,7 +85,7 @@ func genC15(t *rapid.T) *C15Case {
 		case "insPod":
 			p := genC15Pod(t, l)
 			op.Pod = &p
-		case "delPod":
+		case "delPod", "reinsPod":
 			op.Ns = rapid.SampledFrom(c15Ns).Draw(t, l+"ns")
 			op.Name = rapid.SampledFrom(c15PodNames).Draw(t, l+"pod")
 		case "insNP":
@@ -351,6 +355,30 @@ func checkC15(c *C15Case, st *VStats) *VFailure {
 			}); f == nil && err == nil {
 				delete(m.pods, op.Ns+"/"+op.Name)
 			}
+		case "reinsPod":
+			// an existing pod is deleted and comes back with the same labels but its "http" port on the other number
+			step += " " + op.Ns + "/" + op.Name
+			old, ok := m.pods[op.Ns+"/"+op.Name]
+			if !ok {
+				st.Class("skip step: pod to re-insert is absent")
+				break
+			}
+			if err, f = guard("DeleteObject(pod)", func() error {
+				return pe.DeleteObject(&corev1.Pod{ObjectMeta: metav1.ObjectMeta{Name: op.Name, Namespace: op.Ns}})
+			}); f != nil || err != nil {
+				break
+			}
+			delete(m.pods, op.Ns+"/"+op.Name)
+			if f = queryAll(); f != nil {
+				break
+			}
+			old.Port = 161 - old.Port // 80 <-> 81
+			if old.Labels != nil {
+				old.Labels = copyMap(old.Labels)
+			}
+			step += " (back with http=" + fmt.Sprint(old.Port) + ")"
+			_, f = insPod(old)
+			st.Class("pod deleted and re-inserted with another port number")
 		case "insNP":
 			step += " " + op.NP.Ns + "/" + op.NP.Name
 			if err, f = guard("InsertObject(np)", func() error { return pe.InsertObject(npObject(op.NP)) }); f == nil && err == nil {
